@@ -14,7 +14,7 @@ from fractions import Fraction
 
 from ..astutil import calls, const, kw, short
 from ..kai import Arr, cmp_cond, cond_key, cond_repr, flatten_and, interpret
-from ..kutil import CannotEvaluate, Spec, evaluate, show, guard_atoms
+from ..kutil import returned_arrays, CannotEvaluate, Spec, evaluate, show, guard_atoms
 from ..nanq import is_nan_aware_eq
 from ..program import AnalysisIncomplete, Func, norm
 from ..sym import App, Rat, Sym, walk_atoms
@@ -37,7 +37,7 @@ def check_apply(prog, rep, m):
     entry = 'apply'
     data, kernel, func = f.params[:3]
     k = interpret(prog, f)
-    rets = [v for v, g in k.returns if isinstance(v, Arr)]
+    rets = returned_arrays(k)
     out = rets[0] if rets else None
     cell = [s for s in k.stores if s.arr is out and s.idx != 'all']
     if len(cell) != 1:
@@ -127,7 +127,7 @@ def check_mean(prog, rep, m):
     entry = 'mean'
     data = f.params[0]
     k = interpret(prog, f)
-    rets = [v for v, g in k.returns if isinstance(v, Arr)]
+    rets = returned_arrays(k)
     out = rets[0] if rets else None
     stores = [s for s in k.stores if s.arr is out and s.idx != 'all']
     means = [s for s in stores if any(isinstance(a, App) and a.name.startswith('reduce:') for a in s.value.atoms())]
@@ -204,7 +204,7 @@ def check_convolve(prog, rep):
     entry = 'convolution_2d'
     data, kernel = f.params[:2]
     k = interpret(prog, f)
-    rets = [v for v, g in k.returns if isinstance(v, Arr)]
+    rets = returned_arrays(k)
     out = rets[0] if rets else None
     rep.add('F3', f, entry, 'output initialised %r' % getattr(out, 'init', None), f.node.lineno,
             getattr(out, 'init', None) == 'nan', 'cells whose window leaves the raster must be NaN: NaN-initialised output')
@@ -302,7 +302,7 @@ def check_hotspots(prog, rep, m):
     if f is None:
         raise AnalysisIncomplete('_calc_hotspots_numpy not found')
     k = interpret(prog, f)
-    rets = [v for v, g in k.returns if isinstance(v, Arr)]
+    rets = returned_arrays(k)
     out = rets[0] if rets else None
     cell = [s for s in k.stores if s.arr is out and s.idx != 'all']
     if len(cell) != 1 or cell[0].guards:
